@@ -642,6 +642,7 @@ def correspondence(ctx, res, n=None):
     M = mods()
     n = n or ctx.scale(1500, 30000)
     reqs = gen_requests(M, ctx.sub_rng("corr"), n)
+    ctx.sub_rng("corr-order").shuffle(reqs)        # the model is a function of the request: any order must agree
     impl = [impl_eval(M, r) for r in reqs]
     model = LeanDriver("C03").run([json.dumps(r) for r in reqs])
     shown = set()
@@ -688,6 +689,42 @@ def srepr(o):
         return "<%s whose repr raises %s>" % (type(o).__name__, type(e).__name__)
 
 
+def mutate_container(o, depth=0):
+    """change a list / dict in place (and its first nested container); False for scalars"""
+    if isinstance(o, dict):
+        inner = [v for v in o.values() if isinstance(v, (list, dict))]
+        o["__mutated__"] = depth
+        if inner and depth < 3:
+            mutate_container(inner[0], depth + 1)
+        return True
+    if isinstance(o, list):
+        inner = [v for v in o if isinstance(v, (list, dict))]
+        o.append("__mutated__")
+        if o[:1] and not isinstance(o[0], (list, dict)):
+            o[0] = "__changed__"
+        if inner and depth < 3:
+            mutate_container(inner[0], depth + 1)
+        return True
+    return False
+
+
+class Watch:
+    """deep snapshots of inputs and of previously returned values, compared after later API calls"""
+
+    def __init__(self, oracle, case, cname):
+        self.o, self.case, self.cname, self.items = oracle, case, cname, []
+
+    def add(self, name, obj):
+        self.items.append((name, obj, copy.deepcopy(obj)))
+
+    def check(self, after):
+        for name, obj, snap in self.items:
+            if obj != snap:
+                kindof = "input-changed" if "argument" in name or "given" in name else "returned-value-changed"
+                self.o.bad("%s:history:api-call:%s" % (self.cname, kindof), "%s was changed by a later call (%s)" % (name, after), self.case,
+                           expected=srepr(snap), observed=srepr(obj))
+
+
 class Oracle:
     def __init__(self, M, res):
         self.M = M
@@ -716,6 +753,35 @@ class Oracle:
         except Exception as e:
             self.bad("%s:encode-raises:%s" % (cname, kind(e)), "to_json raises", case)
             return
+        # order-free expectation, stated independently of the implementation's to_json: a class that inherits
+        # JSONField.to_json ("if there are no values in the object, returns empty string") writes exactly the fields
+        # that are set (not None, not equal to the default of a fresh instance), sorted; '' when there is none.
+        # It cannot depend on what this process encoded before.
+        if "to_json" not in C.__dict__:
+            setf = {k: v for k, v in snap.items() if v is not None and not (v == fresh[k] and type(v) is type(fresh[k]))}
+            exp_t = json.dumps(setf, sort_keys=True) if setf else ""
+            if t != exp_t:
+                why = "nothing-set-not-empty-text" if not setf else ("default-valued-field-in-text" if len(t) > len(exp_t) else "set-field-missing-from-text")
+                self.bad("%s:encoding-not-canonical:%s" % (cname, why),
+                         "to_json is not the canonical text of the set fields (sorted keys, unset/default fields omitted, '' when nothing is set)",
+                         case, expected=exp_t, observed=t)
+            if exp_t:
+                try:   # a canonical stored text re-encodes to itself
+                    t3 = C.from_json(exp_t).to_json()
+                    if t3 != exp_t:
+                        self.bad("%s:stored-text-reencodes-differently" % cname, "decode + encode of a canonical text gives a different text",
+                                 case, expected=exp_t, observed=t3)
+                except Exception as e:
+                    self.bad("%s:stored-text-raises:%s" % (cname, kind(e)), "decode + encode of a canonical text raises", case, observed=exp_t)
+        if "to_dict" not in C.__dict__:
+            setd = {k: v for k, v in snap.items() if v is not None and not (v == fresh[k])}
+            try:
+                dd = x.to_dict()
+                if dd != (setd or None) or (dd is not None and list(dd) != [k for k in snap if k in setd]):
+                    self.bad("%s:to_dict-not-set-fields" % cname, "to_dict is not the dict of the set fields (None when nothing is set)", case,
+                             expected=to_wire(setd or None), observed=to_wire(dd))
+            except Exception as e:
+                pass    # reported below
         if x.__dict__ != snap:
             self.bad("%s:to_json-mutates" % cname, "to_json changed the value", case)
         try:
@@ -868,7 +934,7 @@ class Oracle:
     def jsondata(self, cname, obj=None, text=None):
         jd = self.M[2]
         C = getattr(jd, cname)
-        case = {"kind": "jsondata", "class": cname, "obj": to_wire(obj) if text is None else None, "text": text}
+        case = {"kind": "jsondata", "class": cname, "py": repr(obj) if text is None else None, "text": text}
         try:
             if text is not None:
                 x = C(text)
@@ -884,8 +950,11 @@ class Oracle:
                 if obj is None:
                     if x.json != "{}":
                         self.bad("%s:none" % cname, "None is not stored as {}", case)
-                elif x.data != obj:
-                    self.bad("%s:object-lost" % cname, ".data differs from the object given", case, observed=to_wire(x.data))
+                elif x.data != json.loads(json.dumps(obj)) or type(x.data) is not type(json.loads(json.dumps(obj))):
+                    # the value is what its encoding decodes to (tuples read back as lists, non-str keys as str)
+                    self.bad("%s:object-lost" % cname, ".data differs from decode(encode(object))", case, observed=srepr(x.data))
+            if x.data != json.loads(x.json):
+                self.bad("%s:data-differs-from-text" % cname, ".data is not what .json decodes to", case, observed=srepr(x.data))
             y = C(x.json)
             if y.json != x.json or y.data != x.data:
                 self.bad("%s:reencode-differs" % cname, "re-reading .json gives a different value", case)
@@ -1062,6 +1131,281 @@ class Oracle:
         except Exception as e:
             self.bad("typed_tuple:raises:%s" % kind(e), "typed tuple codec raises on a valid tuple", case)
 
+    # ------------------------------------------------------------------
+    # histories: aliasing and hidden state.  Rule: after ANY sequence of API calls and of in-place changes to objects
+    # the caller owns (what it passed in, what it got back), every instance is still self-consistent (its value is
+    # what its own encoding decodes to; ==/hash agree with that), no API call changes an input or a previously
+    # returned value, values held as text (JSONData) or built by copying (Tags, Gateway, to_dict(), list_*()) do not
+    # follow later changes of the caller's objects, and instances derived from one another (update / copy /
+    # from_json(to_json())) do not share state that an assignment on one of them changes.
+
+    def jd_history(self, cname, obj=None, text=None):
+        jd = self.M[2]
+        C = getattr(jd, cname)
+        case = {"kind": "jd_history", "class": cname, "py": repr(obj) if text is None else None, "text": text}
+
+        def bad(step, why, what, **kw):
+            self.bad("%s:history:%s:%s" % (cname, step, why), what, case, **kw)
+        try:
+            src = copy.deepcopy(obj)
+            x = C(src) if text is None else C(text)
+            j0 = x.json
+            exp = json.loads(j0)
+            twin = C(j0)
+            has_eq = type(x).__eq__ is not object.__eq__
+
+            def consistent(step):
+                if x.json != j0:
+                    bad(step, "text-changed", "the stored JSON text changed although the value was not assigned", expected=j0, observed=x.json)
+                d = x.data
+                if d != exp or type(d) is not type(exp):
+                    bad(step, "data-differs-from-text", ".data is no longer what .json decodes to", expected=srepr(exp), observed=srepr(d))
+                if C(x.json).data != d:
+                    bad(step, "roundtrip", "decode(encode(value)) differs from the value", observed=srepr(d))
+                if has_eq:
+                    if not (x == twin) or hash(x) != hash(twin):
+                        bad(step, "eq-hash", "value no longer equal / same hash as a value with the same text")
+                    elif twin.data != d:
+                        bad(step, "eq-but-different-data", "compares equal to a value that shows different data")
+            consistent("constructed")
+            w = Watch(self, case, cname)
+            w.add("argument", src)
+            first = x.data
+            w.add("returned .data", first)
+            x.json, x.data, str(x), C(x.json)
+            w.check("reading .json/.data/str")
+            if mutate_container(src):
+                consistent("after-source-mutated")
+            got = x.data
+            if mutate_container(got):
+                consistent("after-returned-data-mutated")
+            if got is not first and mutate_container(first):
+                consistent("after-first-returned-data-mutated")
+            # two instances built from one source object
+            src2 = copy.deepcopy(obj) if text is None else None
+            a, b = (C(src2), C(src2)) if text is None else (C(text), C(text))
+            bj, bd = b.json, copy.deepcopy(b.data)
+            if mutate_container(a.data) | (src2 is not None and mutate_container(src2)):
+                if b.json != bj or b.data != bd or b.data != json.loads(b.json):
+                    bad("two-instances", "shared-state", "changing what one instance returned (or the common source) changed another instance")
+        except Exception as e:
+            bad("raises", kind(e), "history on valid JSON data raises %s" % type(e).__name__)
+
+    def jf_history(self, cname, kw):
+        cl = self.M[0]
+        C = getattr(cl, cname)
+        case = {"kind": "jf_history", "class": cname, "kw": to_wire(kw)}
+
+        def bad(step, why, what, **k2):
+            self.bad("%s:history:%s:%s" % (cname, step, why), what, case, **k2)
+
+        def observe(o):
+            return [o.to_json(), copy.deepcopy(o.__dict__), copy.deepcopy(o.to_dict()), str(o)]
+
+        def consistent(o, step):
+            t = o.to_json()
+            y = C.from_json(t)
+            if (y is None and o.__dict__ != C().__dict__) or (y is not None and y.__dict__ != o.__dict__):
+                bad(step, "roundtrip", "decode(encode(value)) differs from the value", observed=t)
+        try:
+            src = copy.deepcopy(kw)
+            x = C(**src)
+            w = Watch(self, case, cname)
+            w.add("constructor arguments", src)
+            o1 = observe(x)
+            d = x.to_dict()
+            w.add("returned to_dict()", d)
+            t = x.to_json()
+            y = C.update(x)
+            z = C.from_json(t)
+            w.check("to_dict/to_json/update/from_json")
+            oy, oz = observe(y), (observe(z) if z is not None else None)
+            # the dict handed out by to_dict() is the caller's
+            if d is not None:
+                d["__added__"] = 1
+                d.pop(next(iter(d)))
+                if observe(x) != o1:
+                    bad("after-to_dict-result-mutated", "instance-changed", "changing the dict returned by to_dict() changed the instance")
+            # assignment on a derived instance must not reach the others, and vice versa
+            names = list(x.__dict__)
+            rng = __import__("random").Random(canon(case))
+            for f in names[:3]:
+                v2 = None
+                for _ in range(8):
+                    v2 = domain_value(cl, C, f, rng)
+                    if v2 is not None and v2 != x.__dict__[f]:
+                        break
+                if v2 is None or v2 == x.__dict__[f]:
+                    continue
+                setattr(y, f, v2)
+                if observe(x) != o1:
+                    bad("after-assignment-on-update-copy", "original-changed", "assigning a field of update(x) changed x")
+                if z is not None:
+                    if observe(z) != oz:
+                        bad("after-assignment-on-update-copy", "decoded-twin-changed", "assigning a field of one instance changed an unrelated instance")
+                    setattr(z, f, v2)
+                    oz = observe(z)
+                    if observe(x) != o1:
+                        bad("after-assignment-on-decoded", "original-changed", "assigning a field of from_json(to_json(x)) changed x")
+                oy = observe(y)
+                setattr(x, f, v2)
+                if observe(y) != oy:
+                    bad("after-assignment-on-original", "copy-changed", "assigning a field of x changed update(x)")
+                consistent(x, "after-assignment")
+                o1 = observe(x)
+            # the caller's own containers (lists passed as values) are stored by reference by design; whatever the caller
+            # does to them the instance must stay self-consistent
+            changed = False
+            for f, v in src.items():
+                if isinstance(v, list):
+                    pool = label_values(cl, f) if cname == "Labels" else STRS
+                    v.append(v[0] if v else pool[0])      # a value of the field's domain, so that decoding still accepts it
+                    changed = True
+            if changed:
+                consistent(x, "after-source-mutated")
+                if observe(x) != o1:
+                    self.res.count("oracle:alias:%s-holds-callers-list" % cname)
+        except Exception as e:
+            bad("raises", kind(e), "history on a valid value raises %s" % type(e).__name__)
+
+    def tags_history(self, ts):
+        tg = self.M[1]
+        case = {"kind": "tags_history", "tags": ts}
+
+        def bad(step, why, what):
+            self.bad("Tags:history:%s:%s" % (step, why), what, case)
+        try:
+            src = list(ts)
+            x = tg.Tags(src)
+            t0, v0 = x.to_json(), list(x.tags)
+            w = Watch(self, case, "Tags")
+            w.add("argument", src)
+            it = list(iter(x))
+            y = tg.Tags.from_json(t0)
+            w.add("iterated tags", it)
+            x.to_json(), str(x), list(iter(x))
+            w.check("to_json/str/iter/from_json")
+            src.append("added")
+            it.append("added")
+            if src[:1]:
+                src[0] = "changed"
+            if x.to_json() != t0 or list(x.tags) != v0:
+                bad("after-source-mutated", "instance-changed", "changing the list given to the constructor (or the iterated copy) changed the Tags")
+            y.tags.append("zz")
+            if x.to_json() != t0:
+                bad("two-instances", "shared-state", "changing a decoded twin changed the original")
+        except Exception as e:
+            bad("raises", kind(e), "history on valid tags raises %s" % type(e).__name__)
+
+    def mi_history(self, entries):
+        mm = self.M[5]
+        case = {"kind": "mi_history", "entries": entries}
+
+        def bad(step, why, what):
+            self.bad("MaintenanceInfo:history:%s:%s" % (step, why), what, case)
+        try:
+            m = mm.MaintenanceInfo()
+            built = [(nm, entry_build(mm, wv)) for nm, wv in entries]
+            for nm, e in built:
+                m.add(nm, e)
+            m.finalize()
+            t0 = m.to_json()
+            snap = copy.deepcopy(m._nodes)
+            w = Watch(self, case, "MaintenanceInfo")
+            names, details = m.list_names(), m.list_details()
+            w.add("list_names()", names)
+            w.add("list_details()", details)
+            its = list(m.iter())
+            y = mm.MaintenanceInfo.from_json(t0)
+            c = m.copy()
+            m.to_json(), str(m), m.list_names(), m.list_details()
+            w.check("list_names/list_details/iter/copy/to_json/from_json")
+            names.append("zz")
+            details.append(("zz", None))
+            if details[:1]:
+                details.pop(0)
+            its.clear()
+            if m._nodes != snap or m.to_json() != t0 or list(m._nodes) != list(snap):
+                bad("after-returned-lists-mutated", "record-changed", "changing a list returned by list_names/list_details/iter changed the finalized record")
+            c.add("zz", entry_build(mm, ["Active", None, None]))
+            for nm in list(snap)[:1]:
+                c.rem(nm)
+            y2 = y.copy()
+            y2.add("yy", entry_build(mm, ["Maint", None, None]))
+            if m._nodes != snap or m.to_json() != t0:
+                bad("two-instances", "shared-state", "changing a copy / a decoded twin's copy changed the finalized record")
+            if y._nodes != snap or y.to_json() != t0:
+                bad("two-instances", "decoded-twin-changed", "changing a copy of the decoded twin changed the twin")
+        except Exception as e:
+            bad("raises", kind(e), "history on a valid record raises %s" % type(e).__name__)
+
+    def pi_history(self, ero, payload):
+        pi = self.M[4]
+        cname = "ERO" if ero else "PathInfo"
+        case = {"kind": "pi_history", "ero": ero, "payload": to_wire(payload)}
+        K = pi.ERO if ero else pi.PathInfo
+
+        def bad(step, why, what):
+            self.bad("%s:history:%s:%s" % (cname, step, why), what, case)
+
+        def same(p, q):
+            return q is not None and p.type == q.type and type(p.payload) is type(q.payload) and \
+                (p.payload.__dict__ == q.payload.__dict__ if isinstance(p.payload, pi.Path) else p.payload == q.payload)
+        try:
+            a2z, z2a = copy.deepcopy(payload)
+            q = pi.Path()
+            q.set(a2z=a2z, z2a=z2a)
+            x = K(pi.PathRepresentationType.Path)
+            x.set(q)
+            t0 = x.to_json()
+            w = Watch(self, case, cname)
+            w.add("lists given to Path.set", [a2z, z2a])
+            y = K.from_json(t0)
+            got = x.get()
+            x.to_json(), str(x), q.get(), q.to_dict()
+            w.check("to_json/str/get/to_dict/from_json")
+            # a decoded twin is independent of the original
+            for l in (y.payload.a2z, y.payload.z2a):
+                if isinstance(l, list):
+                    l.append("zz")
+            if x.to_json() != t0:
+                bad("two-instances", "shared-state", "changing the decoded twin's lists changed the original")
+            # the caller's lists are held by reference by design; the value must stay self-consistent
+            ch = False
+            for l in (a2z, z2a):
+                ch |= isinstance(l, list) and mutate_container(l)
+            if ch and not same(x, K.from_json(x.to_json())):
+                bad("after-source-mutated", "roundtrip", "decode(encode(value)) differs from the value")
+        except Exception as e:
+            bad("raises", kind(e), "history on a valid path raises %s" % type(e).__name__)
+
+    def gw_history(self, kw):
+        cl, gw = self.M[0], self.M[3]
+        case = {"kind": "gw_history", "kw": kw}
+
+        def bad(step, why, what):
+            self.bad("Gateway:history:%s:%s" % (step, why), what, case)
+        try:
+            lab = cl.Labels(**kw)
+            g = gw.Gateway(lab)
+            t0 = g.to_json()
+            d0 = copy.deepcopy(g.lab.__dict__)
+            snap = copy.deepcopy(lab.__dict__)
+            g2 = gw.Gateway.from_json(t0)
+            g.to_json(), str(g), g.gateway, g.subnet, g.mac
+            if lab.__dict__ != snap:
+                bad("api-call", "input-changed", "Gateway changed the labels it was given")
+            # the caller keeps using its Labels object
+            lab.mac = "0a:0b:0c:0d:0e:0f"
+            lab.ipv4, lab.ipv6 = None, None
+            if g.to_json() != t0 or g.lab.__dict__ != d0:
+                bad("after-source-mutated", "instance-changed", "changing the Labels given to the constructor changed the Gateway")
+            g2.lab.mac = "0a:0b:0c:0d:0e:0f"
+            if g.to_json() != t0:
+                bad("two-instances", "shared-state", "changing the decoded twin changed the original")
+        except Exception as e:
+            bad("raises", kind(e), "history on a valid gateway raises %s" % type(e).__name__)
+
     def run_case(self, c):
         k = c["kind"]
         if k == "jsonfield":
@@ -1071,7 +1415,19 @@ class Oracle:
         elif k == "tags":
             self.tags(c["tags"])
         elif k == "jsondata":
-            self.jsondata(c["class"], obj=from_wire(c["obj"]) if c.get("text") is None else None, text=c.get("text"))
+            self.jsondata(c["class"], obj=pyobj(c) if c.get("text") is None else None, text=c.get("text"))
+        elif k == "jd_history":
+            self.jd_history(c["class"], obj=pyobj(c) if c.get("text") is None else None, text=c.get("text"))
+        elif k == "jf_history":
+            self.jf_history(c["class"], from_wire(c["kw"]))
+        elif k == "tags_history":
+            self.tags_history(c["tags"])
+        elif k == "mi_history":
+            self.mi_history([tuple(e) for e in c["entries"]])
+        elif k == "pi_history":
+            self.pi_history(c["ero"], from_wire(c["payload"]))
+        elif k == "gw_history":
+            self.gw_history(c["kw"])
         elif k == "gateway":
             self.gateway(c["kw"])
         elif k == "pathinfo":
@@ -1084,6 +1440,14 @@ class Oracle:
             raise ValueError("unknown case kind %s" % k)
 
 
+def pyobj(c):
+    """the python object of a jsondata case: `py` (a literal, for tuples / non-str keys) or the wire form `obj`"""
+    if c.get("py") is not None:
+        import ast
+        return ast.literal_eval(c["py"])
+    return from_wire(c.get("obj"))
+
+
 def corpus_cases():
     out = []
     for p in sorted(glob.glob(os.path.join(CORPUS_DIR, "C03", "*.json"))):
@@ -1093,131 +1457,333 @@ def corpus_cases():
     return out
 
 
-def oracle(ctx, res, n=None):
-    M = mods()
-    cl, tg, jd, gw, pi, mm, tt = M
-    O = Oracle(M, res)
-    rng = ctx.sub_rng("oracle")
-    n = n or ctx.scale(2500, 50000)
+GROUPS = ["Capacities", "CapacityHints", "Labels", "ReservationInfo", "StructuralInfo", "Location", "Flags", "Tags",
+          "MeasurementData", "UserData", "LayoutData", "Gateway", "PathInfo", "ERO", "MaintenanceInfo", "TypedTuple"]
 
-    def ev(nt=None):
-        res.evaluations += 1
-        if nt is not None:
-            res.nontrivial.add(nt)
-    # 0. corpus (past failures) first
-    for c in corpus_cases():
-        O.run_case(c)
-        ev(canon(c))
-    classes = jf_classes(cl)
-    # 1. deterministic corners
-    for C in classes:
+
+def battery(M):
+    """deterministic cases per class (group): {group: [case, ...]}; the first case of a group is its representative
+    ('encode one instance') in a prelude"""
+    cl, tg, jd, gw, pi, mm, tt = M
+    B = {g: [] for g in GROUPS}
+    for C in jf_classes(cl):
         cn = C.__name__
+        if cn not in B:
+            B[cn] = []
+            GROUPS.append(cn)
         good = [j for j in JUNK if passes_guard(C, j)]
-        for kw in corner_kwargs(cl, C):
-            O.jsonfield(cn, kw)
-            ev(canon([cn, to_wire(kw)]) if kw else None)
-            O.jsonfield(cn, kw, unknown=[("future_field", good[0])])
-            ev()
-        first = corner_kwargs(cl, C)[1]
+        corners = corner_kwargs(cl, C)
+        first = corners[1]
+        B[cn].append({"kind": "jsonfield", "class": cn, "kw": to_wire(first), "unknown": None})
+        for kw in corners:
+            B[cn].append({"kind": "jsonfield", "class": cn, "kw": to_wire(kw), "unknown": None})
+            B[cn].append({"kind": "jsonfield", "class": cn, "kw": to_wire(kw), "unknown": to_wire([("future_field", good[0])])})
+            B[cn].append({"kind": "jf_history", "class": cn, "kw": to_wire(kw)})
         for j in JUNK:                                   # unknown key with every JSON value shape
-            O.jsonfield(cn, first, unknown=[("future_field", j)])
-            ev()
+            B[cn].append({"kind": "jsonfield", "class": cn, "kw": to_wire(first), "unknown": to_wire([("future_field", j)])})
         for a in sorted(a for a in dir(C()) if not a.startswith("__") and a not in C().__dict__):
-            O.jsonfield(cn, first, unknown=[(a, good[0])])   # unknown key that names a method / class attribute
-            ev()
-        O.jf_update(cn, first, {}, bad_key="no_such_field")
-        ev()
-    # 2. random values of the documented domain
+            B[cn].append({"kind": "jsonfield", "class": cn, "kw": to_wire(first), "unknown": to_wire([(a, good[0])])})
+        B[cn].append({"kind": "update", "class": cn, "kw": to_wire(first), "kw2": to_wire({}), "bad_key": "no_such_field"})
+        names = list(C().__dict__)
+        full = {}
+        for f in names:
+            v = corner_kwargs(cl, C)
+            v = [k[f] for k in v if f in k]
+            if v:
+                full[f] = v[-1]
+        B[cn].append({"kind": "jsonfield", "class": cn, "kw": to_wire(full), "unknown": None})
+        B[cn].append({"kind": "jf_history", "class": cn, "kw": to_wire(full)})
+    TAGS = ["a", "tag-1", "under_score", "A" * 255, "é", "0", "x" * 17]
+    for ts in [["a"], [], ["a", "a"], TAGS]:
+        B["Tags"].append({"kind": "tags", "tags": ts})
+        B["Tags"].append({"kind": "tags_history", "tags": ts})
+    for cname in ("MeasurementData", "UserData", "LayoutData"):
+        mx = getattr(jd, cname).MAX_SIZE
+        objs = [{"a": 1}, None, {}, [], {"a": {"b": [1, 2.5, None, True, "é"]}}, ["x" * (mx - 6)], ["x" * (mx - 4)], 0, 0.0, False,
+                [0.0, -0.0], {"k": ""}, {"k": ["a", "b"], "n": {"x": 0}}, [[1], [2]], (1, 2), {"t": (1, (2, 3))}, {1: "one", 2.5: "f", True: "b", None: "n"},
+                [0, 0.0, None]]
+        for o in objs:
+            B[cname].append({"kind": "jsondata", "class": cname, "py": repr(o), "text": None})
+            B[cname].append({"kind": "jd_history", "class": cname, "py": repr(o), "text": None})
+        for t in ["{}", "[]", "null", "0", '""', ' { "a" : 1 } ', '{"b":2,"a":1}', '"' + "x" * (mx - 2) + '"', '{"a": 1e5}',
+                  '{"k": ["a", "b"], "z": 0}', '[{"a": []}, [1]]']:
+            B[cname].append({"kind": "jsondata", "class": cname, "py": None, "text": t})
+            B[cname].append({"kind": "jd_history", "class": cname, "py": None, "text": t})
+    v4 = dict(ipv4_subnet="192.168.1.0/24", ipv4="192.168.1.1")
+    v6 = dict(ipv6_subnet="2001:db8::/48", ipv6="2001:db8::1")
+    for kw in [v4, None, v6, dict(v4, mac="00:11:22:33:44:55"), dict(v6, mac="aA:bB:cC:dD:eE:fF"), dict(v4, vlan="5", ipv6="::1"), dict(v4, **v6)]:
+        B["Gateway"].append({"kind": "gateway", "kw": kw})
+        if kw is not None:
+            B["Gateway"].append({"kind": "gw_history", "kw": kw})
+    lists = [None, [], ["a"], ["n1", "n2", "n3"], ["é", "x y"]]
+    for ero in (False, True):
+        g = "ERO" if ero else "PathInfo"
+        B[g].append({"kind": "pathinfo", "ero": ero, "type": "Path", "payload": to_wire([["a"], ["b"]]), "strict": False, "unknown": False})
+        for strict in ((False, True) if ero else (False,)):
+            for unknown in (False, True):
+                for t in ("Path", "Graph"):
+                    B[g].append({"kind": "pathinfo", "ero": ero, "type": t, "payload": None, "strict": strict, "unknown": unknown})
+                for gid in ["graph-1", "", "é"]:
+                    B[g].append({"kind": "pathinfo", "ero": ero, "type": "Graph", "payload": gid, "strict": strict, "unknown": unknown})
+                for a in lists:
+                    for z in lists:
+                        B[g].append({"kind": "pathinfo", "ero": ero, "type": "Path", "payload": to_wire([a, z]), "strict": strict, "unknown": unknown})
+        for a in lists:
+            B[g].append({"kind": "pi_history", "ero": ero, "payload": to_wire([a, list(reversed(a)) if a else a])})
+    e1 = ["Maint", DATES[3].isoformat(), None]
+    e2 = [None, None, DATES[1].isoformat()]
+    B["MaintenanceInfo"] += [{"kind": "maintenance", "entries": [["n1", e1]], "unknown_entry_key": None},
+                             {"kind": "maintenance", "entries": [], "unknown_entry_key": None},
+                             {"kind": "maintenance", "entries": [["n1", ["Active", None, None]]], "unknown_entry_key": "operator"},
+                             {"kind": "maintenance", "entries": [["RENC", e1], ["é", e2], ["", ["Unknown", DATES[2].isoformat(), DATES[4].isoformat()]]], "unknown_entry_key": None},
+                             {"kind": "mi_history", "entries": [["n1", e1]]}, {"kind": "mi_history", "entries": []},
+                             {"kind": "mi_history", "entries": [["RENC", e1], ["é", e2]]}]
+    TV = ["x", "", "a:b", ":", " lead", "é", "5", "a b"]
+    for cname in TT:
+        for t in tuple_types(tt, cname):
+            for v in TV:
+                B["TypedTuple"].append({"kind": "ttuple", "class": cname, "type": t, "val": v})
+    B["TypedTuple"] += [{"kind": "ttuple", "class": "Label", "type": "mac", "val": "trail "}, {"kind": "ttuple", "class": "Label", "type": "vlan", "val": "  "},
+                        {"kind": "ttuple", "class": "Capacity", "type": "ram", "val": 1000}, {"kind": "ttuple", "class": "Capacity", "type": "cpu", "val": 0}]
+    return B
+
+
+def random_cases(M, rng, n):
+    cl, tg, jd, gw, pi, mm, tt = M
+    classes = jf_classes(cl)
+    out = []
     for i in range(n):
         C = rng.choice(classes)
         cn = C.__name__
         kw = domain_kwargs(cl, C, rng)
         r = rng.random()
-        if r < 0.5:
-            O.jsonfield(cn, kw)
-        elif r < 0.75:
+        if r < 0.45:
+            out.append({"kind": "jsonfield", "class": cn, "kw": to_wire(kw), "unknown": None})
+        elif r < 0.7:
             good = [j for j in JUNK if passes_guard(C, j)]
-            O.jsonfield(cn, kw, unknown=[(rng.choice(UNKNOWN_KEYS), rng.choice(good)) for _ in range(rng.choice([1, 2, 3]))])
+            out.append({"kind": "jsonfield", "class": cn, "kw": to_wire(kw),
+                        "unknown": to_wire([(rng.choice(UNKNOWN_KEYS), rng.choice(good)) for _ in range(rng.choice([1, 2, 3]))])})
+        elif r < 0.9:
+            out.append({"kind": "update", "class": cn, "kw": to_wire(kw), "kw2": to_wire(domain_kwargs(cl, C, rng, density=rng.choice([0.0, 0.3, 0.6]))),
+                        "bad_key": "no_such_field" if rng.random() < 0.2 else None})
         else:
-            O.jf_update(cn, kw, domain_kwargs(cl, C, rng, density=rng.choice([0.0, 0.3, 0.6])),
-                        bad_key="no_such_field" if rng.random() < 0.2 else None)
-        ev(canon([cn, to_wire(kw)]) if kw else None)
+            out.append({"kind": "jf_history", "class": cn, "kw": to_wire(kw)})
     m = max(20, n // 25)
-    # 3. Tags
     TAGS = ["a", "tag-1", "under_score", "A" * 255, "é", "0", "x" * 17]
-    for ts in [[], ["a"], ["a", "a"], TAGS]:
-        O.tags(ts)
-        ev(canon(["tags", ts]) if ts else None)
     for i in range(m):
         ts = [rng.choice(TAGS) for _ in range(rng.choice([1, 2, 3, 8]))]
-        O.tags(ts)
-        ev(canon(["tags", ts]))
-    # 4. JSONData
+        out.append({"kind": rng.choice(["tags", "tags_history"]), "tags": ts})
+
+    def robj(d=0):
+        k = rng.random()
+        if d > 2 or k < 0.35:
+            return rng.choice([None, True, False, 0, 1, -7, 0.0, 2.5] + (["", "s", "é"] if d else []))   # a top-level str is JSON text
+        if k < 0.6:
+            return [robj(d + 1) for _ in range(rng.choice([0, 1, 2, 3]))]
+        if k < 0.7:
+            return tuple(robj(d + 1) for _ in range(rng.choice([1, 2])))
+        return {rng.choice(["a", "b", "k", "", "é", 1, 2.5] if rng.random() < 0.3 else ["a", "b", "k", "", "é"]): robj(d + 1)
+                for _ in range(rng.choice([0, 1, 2, 3]))}
     for cname in ("MeasurementData", "UserData", "LayoutData"):
-        mx = getattr(jd, cname).MAX_SIZE
-        for o in [None, {}, [], {"a": 1}, {"a": {"b": [1, 2.5, None, True, "é"]}}, ["x" * (mx - 6)], ["x" * (mx - 4)], 0, 0.0, False, [0.0, -0.0], {"k": ""}]:
-            O.jsondata(cname, obj=o)
-            ev(canon([cname, to_wire(o)]) if o else None)
-        for t in ["{}", "[]", "null", "0", '""', ' { "a" : 1 } ', '{"b":2,"a":1}', '"' + "x" * (mx - 2) + '"', '{"a": 1e5}']:
-            O.jsondata(cname, text=t)
-            ev(canon([cname, t]))
-        for i in range(m // 3):
-            o = {rng.choice(STRS): rng.choice(JUNK) for _ in range(rng.choice([1, 2, 4]))}
-            O.jsondata(cname, obj=o)
-            ev(canon([cname, to_wire(o)]))
-    # 5. Gateway
-    v4 = dict(ipv4_subnet="192.168.1.0/24", ipv4="192.168.1.1")
-    v6 = dict(ipv6_subnet="2001:db8::/48", ipv6="2001:db8::1")
-    for kw in [None, v4, v6, dict(v4, mac="00:11:22:33:44:55"), dict(v6, mac="aA:bB:cC:dD:eE:fF"), dict(v4, vlan="5", ipv6="::1"), dict(v4, **v6)]:
-        O.gateway(kw)
-        ev(canon(["gw", kw]) if kw else None)
-    # 6. PathInfo / ERO
-    lists = [None, [], ["a"], ["n1", "n2", "n3"], ["é", "x y"]]
-    for ero in (False, True):
-        for strict in ((False, True) if ero else (False,)):
-            for unknown in (False, True):
-                O.pathinfo(ero, "Path", None, strict, unknown)
-                O.pathinfo(ero, "Graph", None, strict, unknown)
-                ev(), ev()
-                for g in ["graph-1", "", "é"]:
-                    O.pathinfo(ero, "Graph", g, strict, unknown)
-                    ev(canon(["pi", ero, g, strict, unknown]))
-                for a in lists:
-                    for z in lists:
-                        O.pathinfo(ero, "Path", [a, z], strict, unknown)
-                        ev(canon(["pi", ero, a, z, strict, unknown]))
-    # 7. MaintenanceInfo
+        for i in range(m // 2):
+            o = robj()
+            out.append({"kind": rng.choice(["jsondata", "jd_history"]), "class": cname, "py": repr(o), "text": None})
+            out.append({"kind": "jd_history", "class": cname, "py": None, "text": json.dumps(json.loads(json.dumps(o)), sort_keys=rng.random() < 0.5)})
+
     def entry(r):
         d1 = r.choice(DATES + [None, None])
         d2 = r.choice(DATES + [None, None])
         return [r.choice(STATES), None if d1 is None else d1.isoformat(), None if d2 is None else d2.isoformat()]
-    O.maintenance([])
-    ev()
-    O.maintenance([("n1", ["Active", None, None])], unknown_entry_key="operator")
-    ev()
     for i in range(m):
         es, seen = [], set()
         for _ in range(rng.choice([1, 2, 3, 5])):
             nm = rng.choice(NODE_NAMES)
             if nm not in seen:
                 seen.add(nm)
-                es.append((nm, entry(rng)))
-        O.maintenance(es)
-        ev(canon(["mi", es]))
-    # 8. typed tuples
-    TV = ["x", "", "a:b", ":", " lead", "é", "5", "a b"]
-    for cname in TT:
-        for t in tuple_types(tt, cname):
-            for v in TV:
-                O.ttuple(cname, t, v)
-                ev(canon(["tt", cname, t, v]))
-    O.ttuple("Label", "mac", "trail ")
-    O.ttuple("Label", "vlan", "  ")
-    O.ttuple("Capacity", "ram", 1000)
-    O.ttuple("Capacity", "cpu", 0)
-    ev(), ev(), ev(), ev()
+                es.append([nm, entry(rng)])
+        out.append({"kind": rng.choice(["maintenance", "maintenance", "mi_history"]), "entries": es, "unknown_entry_key": None})
+    return out
+
+
+def is_nontrivial(c):
+    k = c["kind"]
+    if k in ("jsonfield", "update", "jf_history"):
+        return bool(c["kw"].get("o")) if isinstance(c["kw"], dict) else bool(c["kw"])
+    if k in ("tags", "tags_history"):
+        return bool(c["tags"])
+    if k in ("jsondata", "jd_history"):
+        return c.get("text") not in (None, "{}", "[]", "null") or c.get("py") not in (None, "None", "{}", "[]")
+    if k in ("maintenance", "mi_history"):
+        return bool(c["entries"])
+    if k in ("pathinfo",):
+        return c["payload"] is not None
+    if k == "gateway":
+        return c["kw"] is not None
+    return True
+
+
+def class_state(M):
+    """class-level data attributes of every codec class (hidden process state shows up here)"""
+    cl, tg, jd, gw, pi, mm, tt = M
+    out = {}
+    klasses = [cl.JSONField] + jf_classes(cl) + [tg.Tags, jd.JSONData] + list(jd.JSONData.__subclasses__()) + \
+        [gw.Gateway, pi.Path, pi.PathInfo, pi.ERO, mm.MaintenanceInfo, mm.MaintenanceEntry]
+    for K in klasses:
+        for a, v in vars(K).items():
+            if a.startswith("__") or callable(v) or isinstance(v, (classmethod, staticmethod, property)) or a == "_abc_impl":
+                continue
+            try:
+                out["%s.%s" % (K.__name__, a)] = copy.deepcopy(v)
+            except Exception:
+                out["%s.%s" % (K.__name__, a)] = repr(v)
+    return out
+
+
+def run_cases(O, cases, res, tag=None):
+    for c in cases:
+        O.run_case(c)
+        res.evaluations += 1
+        res.count("oracle:" + c["kind"])
+        if is_nontrivial(c):
+            res.nontrivial.add(canon(c))
+
+
+def worker():
+    """fresh-process part of the oracle: stdin {"prelude": [group...], "groups": [group...], "cases": [case...]?};
+    stdout {"violations": [...], "evaluations": n, "state_changed": [...]}"""
+    import sys
+    from core import Result
+    req = json.load(sys.stdin)
+    M = mods()
+    res = Result()
+    O = Oracle(M, res)
+    B = battery(M)
+    scratch = Result()
+    S0 = class_state(M)
+    for g in req.get("prelude", []):                 # encode one instance of each of these classes first
+        if B.get(g):
+            Oracle(M, scratch).run_case(B[g][0])
+    for g in req.get("groups", []):
+        run_cases(O, B.get(g, []), res)
+    run_cases(O, req.get("cases", []), res)
+    S1 = class_state(M)
+    for v in res.violations:
+        v["case"] = dict(v["case"], fresh_process=True, prelude=req.get("prelude", []),
+                         before=[g for g in req.get("groups", [])][:max(0, _group_index(req, v, B))])
+    json.dump({"violations": res.violations, "evaluations": res.evaluations, "hist": res.hist,
+               "state_changed": sorted(k for k in S1 if S0.get(k) != S1[k])}, sys.stdout, default=str)
+
+
+def _group_index(req, v, B):
+    c = {k: x for k, x in v["case"].items() if k not in ("fresh_process", "prelude", "before")}
+    for i, g in enumerate(req.get("groups", [])):
+        if any(c == b for b in B.get(g, [])):
+            return i
+    return 0
+
+
+def spawn(reqs, par=8):
+    """run worker requests in fresh interpreters, `par` at a time"""
+    import subprocess
+    import sys
+    from core import Infra
+    out = []
+    for i in range(0, len(reqs), par):
+        procs = []
+        for r in reqs[i:i + par]:
+            p = subprocess.Popen([sys.executable, "-c", "from props import c03; c03.worker()"], stdin=subprocess.PIPE, stdout=subprocess.PIPE,
+                                 stderr=subprocess.PIPE, text=True, cwd=os.path.dirname(os.path.dirname(os.path.abspath(__file__))))
+            p.stdin.write(json.dumps(r))
+            p.stdin.close()
+            procs.append((r, p))
+        for r, p in procs:
+            so = p.stdout.read()
+            se = p.stderr.read()
+            p.wait()
+            try:
+                out.append((r, json.loads(so)))
+            except Exception:
+                raise Infra("C03 oracle worker failed (rc=%s): %s" % (p.returncode, se[-1500:]))
+    return out
+
+
+def oracle(ctx, res, n=None):
+    M = mods()
+    O = Oracle(M, res)
+    rng = ctx.sub_rng("oracle")
+    n = n or ctx.scale(2500, 50000)
+    S0 = class_state(M)
+    # 0. corpus (past failures) first
+    run_cases(O, corpus_cases(), res)
+    # 1. deterministic battery, classes in a fresh order per seed (the expectations are order-free)
+    B = battery(M)
+    order = list(GROUPS)
+    rng.shuffle(order)
+    for g in order:
+        run_cases(O, B[g], res)
+    # 2. random cases of every class, interleaved
+    cases = random_cases(M, rng, n)
+    rng.shuffle(cases)
+    run_cases(O, cases, res)
+    changed = sorted(k for k, v in class_state(M).items() if S0.get(k) != v)
+    for k in changed:
+        res.count("oracle:class-level-state-changed:" + k)
+        ctx.notes.append("class-level attribute %s changed while the oracle ran (hidden process state)" % k)
+    # 3. fresh processes: every class is once the first one the process touches (followed by all the others), and once
+    #    preceded by one encoded instance of every other class.  Same order-free expectations.
+    reqs = []
+    for i, g in enumerate(order):
+        reqs.append({"prelude": [], "groups": order[i:] + order[:i]})
+        reqs.append({"prelude": [h for h in order if h != g], "groups": [g]})
+    if ctx.thorough:
+        for k in range(8):
+            o2 = list(order)
+            rng.shuffle(o2)
+            extra = random_cases(M, rng, 300)
+            reqs.append({"prelude": [], "groups": o2, "cases": extra})
+    for r, out in spawn(reqs):
+        res.evaluations += out["evaluations"]
+        res.count("oracle:fresh-process-runs")
+        for k in out["state_changed"]:
+            res.count("oracle:class-level-state-changed:" + k)
+        for v in out["violations"]:
+            v["signature"] = v["signature"]
+            res.violation(v["signature"], v["what"] + " (in a fresh process, after: %s)" % (", ".join(v["case"]["prelude"] + v["case"].get("before", [])) or "nothing"),
+                          v["case"], expected=v.get("expected"), observed=v.get("observed"))
+    settle(res, order)
     res.sample({"case": {"class": "Capacities", "kw": {"cpu": 1, "ram": 2 ** 64 + 1}},
-                "checks": "decode(encode x)==x field-wise, re-encode identical, canonical text, no mutation, to_dict/ctor, update, unknown keys"})
+                "checks": "decode(encode x)==x field-wise, canonical order-free text, re-encode identical, no mutation of inputs / returned values, "
+                          "to_dict/ctor, update, unknown keys, aliasing histories, class orders in-process and in fresh processes"})
+
+
+def group_of(case):
+    k = case["kind"]
+    if k in ("jsonfield", "update", "jf_history", "jsondata", "jd_history"):
+        return case["class"]
+    return {"tags": "Tags", "tags_history": "Tags", "gateway": "Gateway", "gw_history": "Gateway", "maintenance": "MaintenanceInfo",
+            "mi_history": "MaintenanceInfo", "ttuple": "TypedTuple"}.get(k) or ("ERO" if case.get("ero") else "PathInfo")
+
+
+def settle(res, order):
+    """make every reported case reproducible by `--replay`: a violation seen in this (long-lived) process is re-run alone in a
+    fresh process; if it only shows after other classes were used, the replay carries that prelude"""
+    todo = [v for v in res.violations if not v["case"].get("fresh_process")]
+    if not todo:
+        return
+    alone = spawn([{"prelude": [], "groups": [], "cases": [v["case"]]} for v in todo])
+    again = []
+    for v, (_, out) in zip(todo, alone):
+        if not any(w["signature"] == v["signature"] for w in out["violations"]):
+            again.append(v)
+    if not again:
+        return
+    withp = spawn([{"prelude": [g for g in order if g != group_of(v["case"])], "groups": [], "cases": [v["case"]]} for v in again])
+    for v, (r, out) in zip(again, withp):
+        if any(w["signature"] == v["signature"] for w in out["violations"]):
+            v["case"] = dict(v["case"], fresh_process=True, prelude=r["prelude"], before=[])
+            v["what"] += " (order dependent: only after other classes were encoded in the same process)"
+        else:
+            v["what"] += " (seen in the oracle's process; not reproduced in a fresh process alone or after one instance of every other class)"
 
 
 def search(ctx, res, broken):
@@ -1226,9 +1792,19 @@ def search(ctx, res, broken):
 
 def replay(ctx, payload):
     from core import Result
-    r = Result()
-    Oracle(mods(), r).run_case(payload["case"])
-    for v in r.violations:
-        print("  ", v["signature"], v["what"])
+    case = dict(payload["case"])
     want = payload.get("signature")
-    return any(v["signature"] == want for v in r.violations) if want else bool(r.violations)
+    if case.pop("fresh_process", False):
+        prelude = case.pop("prelude", [])
+        before = case.pop("before", [])
+        (_, out), = spawn([{"prelude": prelude, "groups": before, "cases": [case]}])
+        viol = out["violations"]
+    else:
+        case.pop("prelude", None)
+        case.pop("before", None)
+        r = Result()
+        Oracle(mods(), r).run_case(case)
+        viol = r.violations
+    for v in viol:
+        print("  ", v["signature"], v["what"])
+    return any(v["signature"] == want for v in viol) if want else bool(viol)
